@@ -102,3 +102,295 @@ Example rd_withdraw_sol_nonvacuous :
     j_swap_dest_balance (ws_journal ex_journal 300 55) = 125 /\ is_ok (rd_withdraw_sol cx W 901) = false.
 Proof. eexists. split; [vm_compute; reflexivity|]. vm_compute. repeat split. Qed.
 
+(* ================================================================================================ sweep *)
+Definition sw_journal0 (j : journal) : journal := j <| j_next_sweep := sat_add two64 (j_next_sweep j) 1 |>.
+Definition sw_journal1 (j : journal) (debt : N) : journal := sw_journal0 j <| j_swapped_sol := j_swapped_sol j - debt |>.
+Definition sw_journal2 (j : journal) (debt z : N) : journal :=
+  sw_journal1 j debt <| j_swap_dest_balance := j_swap_dest_balance j - z |>.
+Definition sw_dist1 (d : dist) : dist := d <| d_swept := true |>.
+Definition sw_dist2 (d : dist) (z : N) : dist := sw_dist1 d <| d_swept_2z := z |>.
+
+(* guards common to both branches *)
+Record sweep_common (cx : ctx) (W : world) (c : rd_config) (dk : key) (d : dist) (tail : list N) (jk : key) (j : journal)
+  (rest : list meta) : Prop := {
+  sc_metas : exists mc md mj, cx_metas cx = mc :: md :: mj :: rest /\ mkey md = dk /\ mkey mj = jk /\
+             mwritable md = true /\ mwritable mj = true /\ owner (get W (mkey mc)) = KRd /\ data (get W (mkey mc)) = DConfig c;
+  sc_unpaused : c_paused c = false;
+  sc_dist_owner : owner (get W dk) = KRd;
+  sc_dist_data : data (get W dk) = DDist d tail;
+  sc_unswept : d_swept d = false;
+  sc_rewards_final : d_rewards_final d = true;
+  sc_journal_owner : owner (get W jk) = KRd;
+  sc_journal_data : data (get W jk) = DJournal j;
+  sc_distinct : jk <> dk;
+  sc_in_order : j_next_sweep j = d_epoch d;
+  sc_debt_ok : d_uncollectible d <= d_total_debt d
+}.
+
+(* zero collectible debt: only the flag and the sweep pointer change *)
+Theorem rd_sweep_zero_spec cx W W' : rd_sweep cx W = Ok W' ->
+  exists c dk d tail jk j rest, sweep_common cx W c dk d tail jk j rest /\
+    (d_total_debt d - d_uncollectible d = 0 ->
+       now W' = now W /\
+       forall k, get W' k = if key_eqb k jk then (get W jk) <| data := DJournal (sw_journal0 j) |>
+                            else if key_eqb k dk then (get W dk) <| data := DDist (sw_dist1 d) tail |> else get W k).
+Proof.
+  unfold rd_sweep. intros H. inv_all. norm_bool.
+  match goal with H : rd_zc_config _ _ _ = Ok _ |- _ => apply rd_zc_config_ok in H; destruct H as (mc & Ems & -> & _ & Hoc & Hdc) end.
+  match goal with H : rd_zc_dist _ _ _ = Ok _ |- _ => apply rd_zc_dist_ok in H; destruct H as (md & -> & -> & Hwd & Hod & Hdd) end.
+  match goal with H : rd_zc_journal _ _ _ = Ok _ |- _ => apply rd_zc_journal_ok in H; destruct H as (mj & -> & -> & Hwj & Hoj & Hdj) end.
+  specialize (Hwd eq_refl). specialize (Hwj eq_refl).
+  match goal with H : total_sol_debt _ = Some _ |- _ => unfold total_sol_debt in H; apply checked_sub_some in H; destruct H as [-> Hle] end.
+  proj_simpl.
+  lazymatch goal with
+  | _ : data (get W (mkey mc)) = DConfig ?c, _ : data (get W (mkey md)) = DDist ?d ?tail, _ : data (get W (mkey mj)) = DJournal ?j |- _ =>
+    exists c, (mkey md), d, tail, (mkey mj), j end. eexists. split.
+  - constructor; try assumption. exists mc, md, mj. repeat split; eauto.
+  - intros Ez. rewrite Ez in H. cbn [N.eqb] in H. change (0 =? 0) with true in H. cbv iota in H. inv_all.
+    match goal with H : put_dist _ _ _ _ _ = Ok _ |- _ => apply put_dist_spec in H; destruct H as (_ & _ & Hn1 & Hg1) end.
+    apply write_data_spec in H. destruct H as (_ & _ & Hn2 & Hg2).
+    split; [congruence|]. intros k. rewrite Hg2, !Hg1. unfold sw_journal0, sw_dist1.
+    rewrite (key_eqb_sym k (mkey mj)), (key_eqb_sym k (mkey md)).
+    match goal with Hne : mkey mj <> mkey md |- _ => rewrite (key_eqb_neq (mkey md) (mkey mj)) by congruence end.
+    destruct (key_eqb (mkey mj) k); [reflexivity|]. reflexivity.
+Qed.
+
+(* non-zero collectible debt, any swap program: W2 is the world handed to the swap program, W3 the one it returns *)
+Record sweep_facts (cx : ctx) (W W' : world) (c : rd_config) (dk : key) (d : dist) (tail : list N) (jk : key) (j : journal)
+  (debt z : N) (cfg st fills : key) (W2 W3 : world) (s t : token_acct) : Prop := {
+  sf_common : exists mcfg mst mfills mprog mtk msa msd rest,
+      sweep_common cx W c dk d tail jk j (mcfg :: mst :: mfills :: mprog :: mtk :: msa :: msd :: rest) /\
+      mkey mcfg = cfg /\ mkey mst = st /\ mkey mfills = fills /\ mkey mprog = c_swap_program c /\
+      mkey mtk = KTok2z dk /\ mkey msa = KRdSwapAuth /\ mkey msd = KTok2z KRdSwapAuth;
+  sf_debt : debt = d_total_debt d - d_uncollectible d /\ debt <> 0;
+  sf_pool : debt <= j_swapped_sol j;
+  sf_swap_auth_bump : c_has_swap_auth_bump c = true;
+  (* the state the swap program sees: distribution flagged, journal pointer advanced and pool debited *)
+  sf_W2 : now W2 = now W /\
+          forall k, get W2 k = if key_eqb k jk then (get W jk) <| data := DJournal (sw_journal1 j debt) |>
+                               else if key_eqb k dk then (get W dk) <| data := DDist (sw_dist1 d) tail |> else get W k;
+  (* the configured swap program answers (exactly this SOL amount, z, _) under its own program id *)
+  sf_cpi : exists n, swap_dequeue_cpi cx W2 (c_swap_program c) cfg st fills jk debt [KRdJournal]
+                     = Ok (W3, Some (c_swap_program c, RTriple debt z n));
+  sf_src : as_token W3 (KTok2z KRdSwapAuth) = Ok s;
+  sf_dst : as_token W3 (KTok2z dk) = Ok t;
+  sf_src_funds : z <= t_amount s;
+  sf_src_owner : t_owner s = KRdSwapAuth;
+  sf_same_mint : t_mint s = t_mint t;
+  sf_no_overflow : dk <> KRdSwapAuth -> z <> 0 -> t_amount t + z < two64;
+  sf_tracked : z <= j_swap_dest_balance j;
+  sf_now : now W' = now W3;
+  sf_effect : forall k, get W' k =
+      if key_eqb k jk then (get W3 jk) <| data := DJournal (sw_journal2 j debt z) |>
+      else if key_eqb k dk then (get W3 dk) <| data := DDist (sw_dist2 d z) tail |>
+      else if key_eqb dk KRdSwapAuth then get W3 k
+      else if key_eqb k (KTok2z KRdSwapAuth) then (get W3 k) <| data := DToken (s <| t_amount := t_amount s - z |>) |>
+      else if key_eqb k (KTok2z dk) then (get W3 k) <| data := DToken (t <| t_amount := t_amount t + z |>) |>
+      else get W3 k
+}.
+
+Theorem rd_sweep_spec cx W W' : rd_sweep cx W = Ok W' ->
+  forall c dk d tail jk j rest, sweep_common cx W c dk d tail jk j rest -> d_total_debt d - d_uncollectible d <> 0 ->
+  exists z cfg st fills W2 W3 s t,
+    sweep_facts cx W W' c dk d tail jk j (d_total_debt d - d_uncollectible d) z cfg st fills W2 W3 s t.
+Proof.
+  unfold rd_sweep. intros H c0 dk0 d0 tail0 jk0 j0 rest0 C Hnz. inv_all. norm_bool.
+  match goal with H : rd_zc_config _ _ _ = Ok _ |- _ => apply rd_zc_config_ok in H; destruct H as (mc & Ems & -> & _ & Hoc & Hdc) end.
+  match goal with H : rd_zc_dist _ _ _ = Ok _ |- _ => apply rd_zc_dist_ok in H; destruct H as (md & -> & -> & Hwd & Hod & Hdd) end.
+  match goal with H : rd_zc_journal _ _ _ = Ok _ |- _ => apply rd_zc_journal_ok in H; destruct H as (mj & -> & -> & Hwj & Hoj & Hdj) end.
+  match goal with H : total_sol_debt _ = Some _ |- _ => unfold total_sol_debt in H; apply checked_sub_some in H; destruct H as [-> Hle] end.
+  proj_simpl.
+  (* identify with the given common part *)
+  destruct (sc_metas _ _ _ _ _ _ _ _ _ C) as (mc' & md' & mj' & Ems' & Ed & Ej & _ & _ & _ & Hdc').
+  rewrite Ems in Ems'. injection Ems' as <- <- <- <-.
+  pose proof (sc_dist_data _ _ _ _ _ _ _ _ _ C) as Hdd'. pose proof (sc_journal_data _ _ _ _ _ _ _ _ _ C) as Hdj'.
+  rewrite <- Ed in Hdd'. rewrite <- Ej in Hdj'. rewrite Hdc in Hdc'. rewrite Hdd in Hdd'. rewrite Hdj in Hdj'.
+  injection Hdc' as <-. injection Hdd' as <- <-. injection Hdj' as <-. subst dk0 jk0.
+  match goal with H : (if ?b then _ else _) = Ok _ |- _ => destruct b eqn:Eb; [apply N.eqb_eq in Eb; contradiction|] end.
+  inv_all. norm_bool.
+  repeat match goal with H : next_any _ _ = Ok _ |- _ => apply next_any_ok in H; subst end.
+  repeat match goal with H : next_2z_token_pda _ _ _ = Ok _ |- _ =>
+    apply next_2z_token_pda_ok in H; let m := fresh "mt" in destruct H as (m & -> & ? & ->) end.
+  match goal with H : match ?r with RTriple _ _ _ => _ | RMalformed _ => _ end = Ok _ |- _ => destruct r; [|discriminate H]; ok_inj H end.
+  match goal with H : checked_sub _ _ = Some _ |- _ => apply checked_sub_some in H; destruct H as [-> Hbal] end.
+  norm_bool. subst.
+  match goal with H : put_dist _ W _ _ _ = Ok _ |- _ => apply put_dist_spec in H; destruct H as (_ & Ho1 & Hn1 & Hg1) end.
+  match goal with H : write_data _ _ _ _ = Ok W' |- _ => apply write_data_spec in H; destruct H as (_ & _ & Hn6 & Hg6) end.
+  match goal with H : write_data _ _ _ _ = Ok _ |- _ => apply write_data_spec in H; destruct H as (_ & _ & Hn2 & Hg2) end.
+  match goal with H : put_dist _ _ _ _ _ = Ok _ |- _ => apply put_dist_spec in H; destruct H as (_ & Ho5 & Hn5 & Hg5) end.
+  match goal with H : tok_transfer _ _ _ _ _ _ _ = Ok _ |- _ =>
+    pose proof (tok_transfer_fields _ _ _ _ _ _ _ _ H) as Hf4; apply tok_transfer_spec in H; destruct H as (_ & _ & _ & _ & s & t & Hs & Ht & Hz & Hmint & Hown & Hn4 & Hsame & Hdiff) end.
+  proj_simpl.
+  set (dk := mkey md) in *. set (jk := mkey mj) in *.
+  match goal with H : swap_dequeue_cpi _ ?W2 _ ?cfg ?st ?fills _ _ _ = Ok (?W3, Some (_, RTriple _ ?z _)) |- _ =>
+    exists z, cfg, st, fills, W2, W3, s, t; rename H into Hcpi; rename W3 into W3_; rename z into z_ end.
+  constructor; try assumption.
+  - do 7 eexists. eexists. split; [exact C|]. repeat split; auto.
+  - split; [reflexivity|assumption].
+  - split; [congruence|]. intros k. rewrite Hg2, !Hg1. unfold sw_journal1, sw_journal0, sw_dist1.
+    rewrite (key_eqb_sym k jk), (key_eqb_sym k dk), (key_eqb_neq dk jk) by congruence.
+    destruct (key_eqb jk k); reflexivity.
+  - eexists. exact Hcpi.
+  - congruence.
+  - intros Hne Hz0. apply Hdiff; [congruence|assumption].
+  - congruence.
+  - clearbody dk jk. intros k. rewrite Hg6, !Hg5. unfold sw_journal2, sw_journal1, sw_journal0, sw_dist2, sw_dist1.
+    rewrite (key_eqb_sym k jk), (key_eqb_sym k dk), (key_eqb_neq dk jk) by congruence.
+    destruct (key_eqb_spec jk k) as [<-|Hj].
+    { apply acct_ext; cbn; try reflexivity; apply Hf4. }
+    destruct (key_eqb_spec dk k) as [<-|Hd].
+    { apply acct_ext; cbn; try reflexivity; apply Hf4. }
+    destruct (key_eqb_spec dk KRdSwapAuth) as [Ea|Ea].
+    { apply Hsame. congruence. }
+    destruct (Hdiff ltac:(congruence)) as (_ & Hg4). rewrite Hg4.
+    rewrite (key_eqb_sym k (KTok2z KRdSwapAuth)), (key_eqb_sym k (KTok2z dk)).
+    destruct (key_eqb_spec (KTok2z KRdSwapAuth) k) as [<-|]; [reflexivity|].
+    destruct (key_eqb_spec (KTok2z dk) k) as [<-|]; reflexivity.
+Qed.
+
+(* the mock swap program (ring registry): everything explicit in terms of the pre-state *)
+Theorem rd_sweep_mock_spec cx W W' c dk d tail jk j debt z cfg st fills W2 W3 s t :
+  sweep_facts cx W W' c dk d tail jk j debt z cfg st fills W2 W3 s t -> c_swap_program c = KSwapMock ->
+  cfg = KSwapCfg /\ st = KSwapState /\ owner (get W fills) = KSwapMock /\
+  exists r r', data (get W fills) = DFills r /\ dequeue r debt = Some (r', z) /\
+    as_token W (KTok2z KRdSwapAuth) = Ok s /\ as_token W (KTok2z dk) = Ok t /\
+    (fills <> jk /\ fills <> dk /\ fills <> KTok2z KRdSwapAuth /\ fills <> KTok2z dk) /\
+    (jk <> KTok2z KRdSwapAuth /\ jk <> KTok2z dk /\ dk <> KTok2z KRdSwapAuth /\ dk <> KTok2z dk) /\
+    now W' = now W /\
+    forall k, get W' k =
+      if key_eqb k jk then (get W jk) <| data := DJournal (sw_journal2 j debt z) |>
+      else if key_eqb k dk then (get W dk) <| data := DDist (sw_dist2 d z) tail |>
+      else if key_eqb k fills then (get W fills) <| data := DFills r' |>
+      else if key_eqb dk KRdSwapAuth then get W k
+      else if key_eqb k (KTok2z KRdSwapAuth) then (get W k) <| data := DToken (s <| t_amount := t_amount s - z |>) |>
+      else if key_eqb k (KTok2z dk) then (get W k) <| data := DToken (t <| t_amount := t_amount t + z |>) |>
+      else get W k.
+Proof.
+  intros F Hmock.
+  destruct (sf_common _ _ _ _ _ _ _ _ _ _ _ _ _ _ _ _ _ _ F) as (m1 & m2 & m3 & m4 & m5 & m6 & m7 & rest & C & _).
+  destruct (sf_W2 _ _ _ _ _ _ _ _ _ _ _ _ _ _ _ _ _ _ F) as (Hn2 & Hg2).
+  destruct (sf_cpi _ _ _ _ _ _ _ _ _ _ _ _ _ _ _ _ _ _ F) as (n & Hcpi). rewrite Hmock in Hcpi.
+  apply swap_dequeue_cpi_mock_spec in Hcpi.
+  destruct Hcpi as (_ & -> & -> & _ & _ & Hof & r & r' & z' & Hdf & Hdq & Hrep & Hn3 & Hg3).
+  injection Hrep as <- _.
+  pose proof (sc_journal_owner _ _ _ _ _ _ _ _ _ C) as Hoj. pose proof (sc_dist_owner _ _ _ _ _ _ _ _ _ C) as Hod.
+  pose proof (sc_distinct _ _ _ _ _ _ _ _ _ C) as Hjd.
+  assert (fills <> jk) as Nfj.
+  { intros ->. rewrite Hg2, key_eqb_refl in Hof. cbn in Hof. congruence. }
+  assert (fills <> dk) as Nfd.
+  { intros ->. rewrite Hg2, (key_eqb_neq dk jk), key_eqb_refl in Hof by congruence. cbn in Hof. congruence. }
+  rewrite Hg2, (key_eqb_neq fills jk), (key_eqb_neq fills dk) in Hof, Hdf by assumption.
+  pose proof (sf_src _ _ _ _ _ _ _ _ _ _ _ _ _ _ _ _ _ _ F) as Hs. pose proof (sf_dst _ _ _ _ _ _ _ _ _ _ _ _ _ _ _ _ _ _ F) as Ht.
+  apply as_token_ok in Hs, Ht. destruct Hs as [Hs Hso], Ht as [Ht Hto].
+  (* owners in W3 / W2 are those of W *)
+  assert (forall k, owner (get W3 k) = owner (get W k)) as HO.
+  { intros k. rewrite Hg3. destruct (key_eqb_spec fills k) as [<-|]; cbn; rewrite Hg2.
+    - rewrite (key_eqb_neq fills jk), (key_eqb_neq fills dk) by assumption. reflexivity.
+    - destruct (key_eqb_spec k jk) as [->|]; [reflexivity|]. destruct (key_eqb_spec k dk) as [->|]; reflexivity. }
+  rewrite HO in Hso, Hto.
+  assert (fills <> KTok2z KRdSwapAuth) as Nfs by (intros E; rewrite E in Hof; congruence).
+  assert (fills <> KTok2z dk) as Nft by (intros E; rewrite E in Hof; congruence).
+  assert (jk <> KTok2z KRdSwapAuth) as Njs by (intros E; rewrite E in Hoj; congruence).
+  assert (jk <> KTok2z dk) as Njt by (intros E; rewrite E in Hoj; congruence).
+  assert (dk <> KTok2z KRdSwapAuth) as Nds by (intros E; rewrite E in Hod at 1; congruence).
+  assert (dk <> KTok2z dk) as Ndt by (intros E; rewrite E in Hod at 1; congruence).
+  assert (forall k, k <> fills -> k <> jk -> k <> dk -> get W3 k = get W k) as HF.
+  { intros k H1 H2 H3. rewrite Hg3, (key_eqb_neq fills k) by congruence. rewrite Hg2, !key_eqb_neq by congruence. reflexivity. }
+  rewrite HF in Hs, Ht by congruence.
+  split; [reflexivity|]. split; [reflexivity|]. split; [assumption|].
+  exists r, r'. split; [assumption|]. split; [assumption|].
+  split; [apply as_token_ok; auto|]. split; [apply as_token_ok; auto|].
+  split; [auto|]. split; [auto|].
+  split; [rewrite (sf_now _ _ _ _ _ _ _ _ _ _ _ _ _ _ _ _ _ _ F); congruence|].
+  intros k. rewrite (sf_effect _ _ _ _ _ _ _ _ _ _ _ _ _ _ _ _ _ _ F).
+  destruct (key_eqb_spec k jk) as [->|Hkj].
+  { rewrite Hg3, (key_eqb_neq fills jk) by assumption. rewrite Hg2, key_eqb_refl. apply acct_ext; reflexivity. }
+  destruct (key_eqb_spec k dk) as [->|Hkd].
+  { rewrite Hg3, (key_eqb_neq fills dk) by assumption. rewrite Hg2, (key_eqb_neq dk jk), key_eqb_refl by congruence. apply acct_ext; reflexivity. }
+  destruct (key_eqb_spec k fills) as [->|Hkf].
+  { rewrite (key_eqb_neq fills (KTok2z KRdSwapAuth)), (key_eqb_neq fills (KTok2z dk)) by assumption.
+    assert (get W3 fills = get W fills <| data := DFills r' |>) as ->.
+    { rewrite Hg3, key_eqb_refl. rewrite Hg2, (key_eqb_neq fills jk), (key_eqb_neq fills dk) by assumption. reflexivity. }
+    destruct (key_eqb dk KRdSwapAuth); reflexivity. }
+  rewrite (HF k) by assumption. reflexivity.
+Qed.
+
+(* C05 reading for a real distribution (its key is not the swap-authority PDA): amounts *)
+Theorem rd_sweep_mock_amounts cx W W' c dk d tail jk j debt z cfg st fills W2 W3 s t :
+  sweep_facts cx W W' c dk d tail jk j debt z cfg st fills W2 W3 s t -> c_swap_program c = KSwapMock -> dk <> KRdSwapAuth ->
+  (* books *)
+  data (get W' jk) = DJournal (sw_journal2 j debt z) /\ data (get W' dk) = DDist (sw_dist2 d z) tail /\
+  j_swapped_sol (sw_journal2 j debt z) = j_swapped_sol j - debt /\ debt <= j_swapped_sol j /\
+  j_swap_dest_balance (sw_journal2 j debt z) = j_swap_dest_balance j - z /\ z <= j_swap_dest_balance j /\
+  j_next_sweep (sw_journal2 j debt z) = sat_add two64 (j_next_sweep j) 1 /\
+  j_total_sol (sw_journal2 j debt z) = j_total_sol j /\ j_lifetime_2z (sw_journal2 j debt z) = j_lifetime_2z j /\
+  d_swept (sw_dist2 d z) = true /\ d_swept_2z (sw_dist2 d z) = z /\
+  (* real token accounts: the swap destination loses z, the distribution's custody account gains z *)
+  as_token W (KTok2z KRdSwapAuth) = Ok s /\ as_token W (KTok2z dk) = Ok t /\
+  as_token W' (KTok2z KRdSwapAuth) = Ok (s <| t_amount := t_amount s - z |>) /\ z <= t_amount s /\
+  as_token W' (KTok2z dk) = Ok (t <| t_amount := t_amount t + z |>) /\
+  (* no lamports move *)
+  (forall k, lamports (get W' k) = lamports (get W k)) /\
+  (* z is what the registry's oldest fill offers for exactly this SOL amount *)
+  exists r r', data (get W fills) = DFills r /\ data (get W' fills) = DFills r' /\ dequeue r debt = Some (r', z) /\
+    (ring_wf r -> exists f, abs r = f :: abs r' /\ sol_in f = debt /\ z = z_out f /\ ring_wf r').
+Proof.
+  intros F Hmock Hne.
+  destruct (rd_sweep_mock_spec _ _ _ _ _ _ _ _ _ _ _ _ _ _ _ _ _ _ F Hmock)
+    as (_ & _ & Hof & r & r' & Hdf & Hdq & Hs & Ht & (N1 & N2 & N3 & N4) & (M1 & M2 & M3 & M4) & Hn & Hg).
+  assert (KTok2z KRdSwapAuth <> KTok2z dk) as Nst by congruence.
+  pose proof (sf_common _ _ _ _ _ _ _ _ _ _ _ _ _ _ _ _ _ _ F) as (m1 & m2 & m3 & m4 & m5 & m6 & m7 & rest & C & _).
+  pose proof (sc_distinct _ _ _ _ _ _ _ _ _ C) as Hjd.
+  split; [rewrite Hg, key_eqb_refl; reflexivity|].
+  split; [rewrite Hg, (key_eqb_neq dk jk), key_eqb_refl by congruence; reflexivity|].
+  split; [reflexivity|]. split; [exact (sf_pool _ _ _ _ _ _ _ _ _ _ _ _ _ _ _ _ _ _ F)|].
+  split; [reflexivity|]. split; [exact (sf_tracked _ _ _ _ _ _ _ _ _ _ _ _ _ _ _ _ _ _ F)|].
+  split; [reflexivity|]. split; [reflexivity|]. split; [reflexivity|]. split; [reflexivity|]. split; [reflexivity|].
+  split; [assumption|]. split; [assumption|].
+  apply as_token_ok in Hs, Ht. destruct Hs as [Hs Hso], Ht as [Ht Hto].
+  split.
+  { apply as_token_ok. rewrite Hg, (key_eqb_neq (KTok2z KRdSwapAuth) jk), (key_eqb_neq (KTok2z KRdSwapAuth) dk),
+      (key_eqb_neq (KTok2z KRdSwapAuth) fills), (key_eqb_neq dk KRdSwapAuth), key_eqb_refl by congruence. cbn. auto. }
+  split; [exact (sf_src_funds _ _ _ _ _ _ _ _ _ _ _ _ _ _ _ _ _ _ F)|].
+  split.
+  { apply as_token_ok. rewrite Hg, (key_eqb_neq (KTok2z dk) jk), (key_eqb_neq (KTok2z dk) dk),
+      (key_eqb_neq (KTok2z dk) fills), (key_eqb_neq dk KRdSwapAuth), (key_eqb_neq (KTok2z dk) (KTok2z KRdSwapAuth)), key_eqb_refl by congruence.
+    cbn. auto. }
+  split.
+  { intros k. rewrite Hg. repeat match goal with |- context [key_eqb ?a ?b] => destruct (key_eqb_spec a b); subst; try reflexivity end. }
+  exists r, r'. split; [assumption|]. split.
+  { rewrite Hg, (key_eqb_neq fills jk), (key_eqb_neq fills dk), key_eqb_refl by assumption. reflexivity. }
+  split; [assumption|]. intros Hwf. apply (dequeue_queue _ _ _ _ Hwf Hdq).
+Qed.
+
+(* non-vacuity: epoch 5 has 800 lamports of collectible debt; the registry's oldest fill offers 5000 2Z for 800 SOL-lamports *)
+Definition ex_ring : ring := {| slots := {| sol_in := 800; z_out := 5000 |} :: {| sol_in := 1; z_out := 2 |} :: repeat empty_fill 6; head := 0; count := 2 |}.
+Definition ex_sweep_journal : journal := ex_journal <| j_swapped_sol := 1000 |> <| j_swap_dest_balance := 9000 |>.
+Definition ex_sweep_world (d : dist) : world := ex_world [
+  (KRdConfig, ex_acct (rent LEN_CONFIG_ALLOC) LEN_CONFIG_ALLOC (DConfig ex_cfg));
+  (KRdDist 5, ex_acct (rent (LEN_DIST + 1)) (LEN_DIST + 1) (DDist d [0]));
+  (KRdJournal, ex_acct (rent LEN_CONFIG_ALLOC + 900) LEN_CONFIG_ALLOC (DJournal ex_sweep_journal));
+  (KUser 9, {| lamports := 1; owner := KSwapMock; alen := LEN_FILLS; data := DFills ex_ring |});
+  (KTok2z (KRdDist 5), ex_tok (KRdDist 5) 10);
+  (KTok2z KRdSwapAuth, ex_tok KRdSwapAuth 9000)].
+Definition ex_sweep_cx : ctx := ex_cx KRd [mk KRdConfig false false; mk (KRdDist 5) false true; mk KRdJournal false true;
+  mk KSwapCfg false false; mk KSwapState false false; mk (KUser 9) false true; mk KSwapMock false false;
+  mk (KTok2z (KRdDist 5)) false true; mk KRdSwapAuth false false; mk (KTok2z KRdSwapAuth) false true; mk KToken false false].
+Definition ex_dist5s : dist := ex_dist5 <| d_rewards_final := true |> <| d_total_contributors := 2 |>
+  <| d_rewards_root := tree_root PRE_REWARD [LReward (KUser 21) 400000000 0; LReward (KUser 22) 600000000 100000000] |>
+  <| d_rew_start := 1 |> <| d_rew_end := 2 |>.
+
+Example rd_sweep_nonvacuous :
+  (exists W', rd_sweep ex_sweep_cx (ex_sweep_world ex_dist5s) = Ok W' /\
+     data (get W' (KRdDist 5)) = DDist (sw_dist2 ex_dist5s 5000) [0] /\
+     data (get W' KRdJournal) = DJournal (sw_journal2 ex_sweep_journal 800 5000) /\
+     j_swapped_sol (sw_journal2 ex_sweep_journal 800 5000) = 200 /\ j_swap_dest_balance (sw_journal2 ex_sweep_journal 800 5000) = 4000 /\
+     as_token W' (KTok2z (KRdDist 5)) = Ok {| t_mint := KMint; t_owner := KRdDist 5; t_amount := 5010 |} /\
+     as_token W' (KTok2z KRdSwapAuth) = Ok {| t_mint := KMint; t_owner := KRdSwapAuth; t_amount := 4000 |} /\
+     is_ok (rd_sweep ex_sweep_cx W') = false) /\
+  (* zero collectible debt *)
+  (let d0 := ex_dist5s <| d_uncollectible := 800 |> in
+   exists W', rd_sweep ex_sweep_cx (ex_sweep_world d0) = Ok W' /\
+     data (get W' (KRdDist 5)) = DDist (sw_dist1 d0) [0] /\ data (get W' KRdJournal) = DJournal (sw_journal0 ex_sweep_journal) /\
+     get W' (KTok2z (KRdDist 5)) = ex_tok (KRdDist 5) 10 /\ get W' (KUser 9) = get (ex_sweep_world d0) (KUser 9)).
+Proof. split; [|cbv zeta]; eexists; (split; [vm_compute; reflexivity|]); vm_compute; repeat split. Qed.
